@@ -84,6 +84,13 @@ def check(prog, run):
                 continue
             b = binds[0]
             v = b.value
+            for _hop in range(3):       # `start = first` where `first` is itself bound once: the binding is that of `first`
+                if isinstance(v, ast.Name) and v.id not in c.fi.params:
+                    inner = _single_defs(c.fi, v.id)
+                    if len(inner) == 1:
+                        b, v = inner[0], inner[0].value
+                        continue
+                break
             ok_form = _is_self_call(v, {"peek"}) and not v.args and not v.keywords
             ok_form = ok_form or _is_self_call(v, {"expect", "advance", "expect_keyword"})
             if not ok_form:
